@@ -2373,6 +2373,17 @@ class Interp:
             rv = self.repo_module_attr(recv[1], name)
             if rv is not None:
                 return self.apply(rv, args, kwargs, env, depth, e)
+        if k == "ext" and recv[1].split(" ")[-1] == "struct" and name in ("pack", "unpack", "unpack_from", "calcsize") and args and not kwargs \
+                and all(a[0] == "c" for a in args) and ("ext:*." + name) not in self.hooks:
+            # the struct module on constants: computed (a pure function of its arguments)
+            import struct as _struct
+            try:
+                r_ = getattr(_struct, name)(*[bytes(a[1]) if isinstance(a[1], bytearray) else a[1] for a in args])
+            except Exception as x_:
+                raise _Raise(("ext", "struct.error" if isinstance(x_, _struct.error) else type(x_).__name__, []), "%s: %s" % (type(x_).__name__, x_))
+            if isinstance(r_, tuple):
+                return ("list", [("c", y) for y in r_], False, "tuple")
+            return ("c", r_)
         if k == "ext" and recv[1] == "dict" and name == "fromkeys" and args:
             items_ = self.iterate(self.force(args[0]))
             if items_ is not None and all(x[0] == "c" and _hashable(x[1]) for x in items_):
